@@ -42,7 +42,7 @@ let run_case id toks =
              cont := (nat_of_int !ino, n_of_int (tag * 1024 + 420)) :: !cont; incr ino
     | k -> failwith ("prep kind " ^ k)
   done;
-  let fs0 = { ents = !ents; cont = !cont; nexti = nat_of_int !ino; dmode = []; fstamp = []; dstamp = [] } in
+  let fs0 = { ents = !ents; cont = !cont; nexti = nat_of_int !ino; dmode = []; fstamp = []; dstamp = []; taint = [] } in
   let npush = int_of_string (next ()) in
   let ops = ref [] in
   for _ = 1 to npush do
